@@ -47,7 +47,13 @@ func (t *Timer) Set(dur time.Duration, cb func()) error {
 	if err == nil {
 		// TODO error checking here
 		t.slot.Set(ReadEvent, func(error) {
-			_, _ = syscall.Read(t.fd, t.b[:])
+			_, rerr := syscall.Read(t.fd, t.b[:])
+			if rerr == syscall.EAGAIN {
+				// Not expired: a stale event of the same poll batch, delivered after another handler cancelled
+				// and re-armed this timer. Keep waiting for the real expiration.
+				_ = t.poller.SetRead(&t.slot)
+				return
+			}
 			cb()
 		})
 		err = t.poller.SetRead(&t.slot)
